@@ -118,21 +118,18 @@ example : matchInt "0x_fF+1".toList = some ("0x_fF".toList, "+1".toList) ∧ int
 -- floats ----------------------------------------------------------------------------------------------------------
 
 open JinjaV.Spec.PyLit (Derives pyFloat? floatDecimal) in
-/-- Whatever text `float_re` (as modelled by `matchFloat`) matches is a Python `floatnumber` by the reference grammar
-    (so `1_`, `1._0`, `1.e5`, `1e` … are never read as one float), and the executable reference assigns it the decimal
-    `floatDecimal`.  PARTIAL: that `literal_eval(text.replace("_", ""))` as modelled (`floatValue`) returns exactly that
-    decimal is not proved here; it is checked by the run on every spelling of length ≤ 5 and on random floats. -/
-theorem float_token_python_partial (prev : Option Char) (s m r : Str) (h : matchFloat prev s = some (m, r)) :
-    Derives JinjaV.Spec.PyLit.floatnumber m ∧ pyFloat? m = some (floatDecimal m) := by
+/-- Whatever text `float_re` (as modelled by `matchFloat`, look-behind included) matches is a Python `floatnumber` by the
+    reference grammar (so `1_`, `1._0`, `1.e5`, `1e` … are never read as one float); `literal_eval(text.replace("_", ""))`
+    as modelled succeeds on it with a *float* whose exact decimal `mant * 10 ^ exp` is the one the reference assigns to the
+    spelling with its underscores; restated for the executable reference the driver runs.  (Rounding of that decimal to an
+    IEEE double is Python's on both sides and is not modelled.) -/
+theorem float_token_python (prev : Option Char) (s m r : Str) (h : matchFloat prev s = some (m, r)) :
+    Derives JinjaV.Spec.PyLit.floatnumber m ∧
+    floatValue m = some ⟨(floatDecimal m).1, (floatDecimal m).2⟩ ∧
+    pyFloat? m = some (floatDecimal m) := by
   have hd := matchFloat_derives prev s m r h
   have hacc : JinjaV.Spec.PyLit.floatnumber.accepts m = true := (JinjaV.Spec.PyLit.accepts_iff _ _).2 hd
-  exact ⟨hd, by simp only [pyFloat?, hacc, if_true]⟩
-
-/-- the full statement of which `float_token_python_partial` proves the grammar half -/
-def FloatTokenPythonStatement : Prop :=
-  ∀ (prev : Option Char) (s m r : Str), matchFloat prev s = some (m, r) →
-    JinjaV.Spec.PyLit.Derives JinjaV.Spec.PyLit.floatnumber m ∧
-    floatValue m = some ⟨(JinjaV.Spec.PyLit.floatDecimal m).1, (JinjaV.Spec.PyLit.floatDecimal m).2⟩
+  exact ⟨hd, matchFloat_value prev s m r h, by simp only [pyFloat?, hacc, if_true]⟩
 
 example : matchFloat none "1_0.5e-3_".toList = some ("1_0.5e-3".toList, "_".toList) ∧
     floatValue "1_0.5e-3".toList = some ⟨105, -4⟩ ∧ JinjaV.Spec.PyLit.floatDecimal "1_0.5e-3".toList = (105, -4) ∧
@@ -143,17 +140,18 @@ example : matchFloat none "1_0.5e-3_".toList = some ("1_0.5e-3".toList, "_".toLi
 open JinjaV.Spec.PyLit (Derives integerValue) in
 /-- DESIGN's `number_never_longer`: a number token emitted by the tag rule (float rule first, then integer rule) is
     never a spelling Python rejects or reads as the other kind — an `integer` token is a Python `integer` with the
-    converted value, a `float` token is a Python `floatnumber`. -/
+    converted value, a `float` token is a Python `floatnumber` with the converted decimal. -/
 theorem number_token_python (prev : Option Char) (s text rest : Str) (k : TK) (h : tagRule prev s = .tok k text rest) :
     (k = .integer → Derives JinjaV.Spec.PyLit.integer text ∧ intValue text = some (integerValue text)) ∧
-    (k = .float → Derives JinjaV.Spec.PyLit.floatnumber text) := by
+    (k = .float → Derives JinjaV.Spec.PyLit.floatnumber text ∧
+      floatValue text = some ⟨(JinjaV.Spec.PyLit.floatDecimal text).1, (JinjaV.Spec.PyLit.floatDecimal text).2⟩) := by
   unfold tagRule at h
   split at h
   · cases h; exact ⟨(fun e => nomatch e), (fun e => nomatch e)⟩
   · split at h
     · rename_i m hm
       cases h
-      exact ⟨(fun e => nomatch e), fun _ => (float_token_python_partial prev s m.1 m.2 hm).1⟩
+      exact ⟨(fun e => nomatch e), fun _ => ⟨(float_token_python prev s m.1 m.2 hm).1, (float_token_python prev s m.1 m.2 hm).2.1⟩⟩
     · split at h
       · rename_i m hm
         cases h
@@ -170,5 +168,41 @@ theorem number_token_python (prev : Option Char) (s text rest : Str) (k : TK) (h
 example : tagRule (some ' ') "09 }}".toList = .tok .integer ['0'] "9 }}".toList ∧
     tagRule (some ' ') "1_ }}".toList = .tok .integer ['1'] "_ }}".toList ∧
     tagRule (some ' ') "1e5 }}".toList = .tok .float "1e5".toList " }}".toList := ⟨rfl, rfl, rfl⟩
+
+-- escape sequences: the decoder against the reference table ---------------------------------------------------------
+
+open JinjaV.Spec.PyLit (strValue StrErr) in
+/-- the model's result and the reference's result are the same value / both a syntax error / both a `\N{…}` decline -/
+def SameStringResult : Except DErr (List Nat) → Except StrErr (List Nat) → Prop
+  | .ok v, .ok w => v = w
+  | .error .syntax, .error .syntax => True
+  | .error .oom, .error .named => True
+  | _, _ => False
+
+/-- the full statement: `wrap`'s pipeline reads every body the way Python's escape table does -/
+def StringEscapeSpecStatement : Prop :=
+  ∀ body : List Nat, (∀ c ∈ body, c < 0x110000) →
+    SameStringResult (unescapeBody body) (JinjaV.Spec.PyLit.strValue (normNl body))
+
+/-- `string_escape_spec` outside the shape of finding F13: for every body of code points < 0x110000 in which, after
+    line-break normalisation, no escape-position backslash is directly followed by a non-ASCII code point,
+    `encode("ascii","backslashreplace").decode("unicode-escape")` yields exactly what the reference escape table yields —
+    the same value (unknown escapes kept, octal of 1–3 digits, `\x \u \U` of exact width, line continuation), a syntax
+    error exactly where the reference has one (truncated hex, code point above 0x10ffff, trailing backslash), and `\N`
+    declined on both sides.  PARTIAL with respect to `StringEscapeSpecStatement` only by the F13 exclusion, which is a
+    genuine defect of the code (`Findings/F13.lean` refutes the full statement in the model). -/
+theorem string_escape_spec_partial (body : List Nat) (hb : ∀ c ∈ body, c < 0x110000)
+    (hf : f13Free (normNl body) = true) :
+    SameStringResult (unescapeBody body) (JinjaV.Spec.PyLit.strValue (normNl body)) := by
+  have h := unescape_spec body hb hf
+  cases hu : unescapeBody body with
+  | ok v => rw [hu] at h; simp only [toSpec] at h; rw [← h]; rfl
+  | error e =>
+    rw [hu] at h
+    cases e <;> (simp only [toSpec] at h; rw [← h]; trivial)
+
+example : f13Free (normNl [97, 92, 120, 52, 49, 92, 122, 233, 92, 13, 10, 92, 55, 55, 55]) = true ∧
+    unescapeBody [97, 92, 120, 52, 49, 92, 122, 233, 92, 13, 10, 92, 55, 55, 55] = .ok [97, 65, 92, 122, 233, 511] ∧
+    f13Free [92, 233] = false := ⟨rfl, rfl, rfl⟩
 
 end JinjaV.C14
